@@ -117,6 +117,25 @@ def judge_const(dims, subs):
     return None
 
 
+def judge_param_array_subscript(k):
+    """a subscript that is itself an element of an Integer parameter array, x[idx[k]]: refusing is fine; if it is accepted, k must be a
+    valid 1-based subscript of idx and the element selected is x[idx[k]]"""
+    idx = [2, 3, 1]
+    txt = "model M parameter Integer idx[3] = {2, 3, 1}; Real x[3]; Real z; equation z = sum(x[idx[%d]:idx[%d]]); end M;" % (k, k)
+    try:
+        m = gen(txt)
+        r = residual_bits(m, [3])
+    except Exception:  # noqa
+        return None
+    total = -float(np.sum(r)) if r.size else 0.0
+    sel = [b for b in range(3) if int(round(total)) >> b & 1]
+    if not (1 <= k <= 3):
+        return {"class": "const", "input": txt, "observed": "no error; selected elements %s" % [b + 1 for b in sel], "expected": "an error (idx has elements 1..3)"}
+    if sel != [idx[k - 1] - 1]:
+        return {"class": "const", "input": txt, "observed": "selected elements %s" % [b + 1 for b in sel], "expected": "element %d" % idx[k - 1]}
+    return None
+
+
 def judge_param_step(n, a, step, b):
     """a slice whose step is a parameter expression (-k or k with k = 0): descending and zero steps reach the slice conversion"""
     k = abs(step)
@@ -312,7 +331,7 @@ def main():
     for b in bad[:3]:
         failures.append({"class": "assumed-casadi-contract", "input": b, "observed": "CasADi behaves differently from the assumed contract", "expected": "see contracts/C23.py"})
     print(json.dumps({"performed": True, "cases": cases, "distinct_nontrivial": distinct, "failures": failures[:5],
-                      "rule": "window sweep through generate(): 1-D n in 1..3 with every int subscript and slice bound in [-2, n+2], steps 1,2(,3); slices whose step is a parameter expression with value -1, -2 or 0; "
+                      "rule": "window sweep through generate(): 1-D n in 1..3 with every int subscript and slice bound in [-2, n+2], steps 1,2(,3); slices whose step is a parameter expression with value -1, -2 or 0; subscripts that are elements idx[k] of an Integer parameter array, k in -2..5; "
                               "2-D 2x3 with int/slice/whole pairs; for-loops x[i+off] and a.x[i+off] (array inside a scalar component) with lo,hi in a window; non-trivial = out-of-range or non-empty selections; "
                               "plus sampling of the assumed MX.__getitem__ contract",
                       "bound": "n <= 3 (1-D), 2x3 (2-D), window +-2"}))
@@ -342,6 +361,14 @@ def sweep(tier, limit_first=False):
                         failures.append(r)
                         if limit_first:
                             return failures, cases, distinct
+    for k in range(-2, 6):
+        cases += 1
+        distinct += 1
+        r = judge_param_array_subscript(k)
+        if r:
+            failures.append(r)
+            if limit_first:
+                return failures, cases, distinct
     dims = [2, 3]
     cand1 = [("int", i) for i in range(-1, 4)] + [("whole",), ("slice", 1, 2, 1), ("slice", 0, 1, 1), ("slice", 2, 3, 1), ("slice", 2, 1, 1)]
     cand2 = [("int", i) for i in range(-1, 5)] + [("whole",), ("slice", 1, 3, 1), ("slice", 0, 2, 1), ("slice", 2, 4, 1), ("slice", 1, 3, 2), ("slice", 3, 1, 1)]
